@@ -30,6 +30,16 @@ type c13prop struct{ base }
 
 func (p *c13prop) CaseCPU(tier string) int { return 120 }
 
+// KindCPU: the concurrent rounds run 35 instances three times in the race
+// build (about 20 s of CPU time on the unchanged tree, the byte families of
+// some seeds cost twice as much).
+func (p *c13prop) KindCPU(kind, tier string) int {
+	if kind == "conc" {
+		return 600
+	}
+	return 60
+}
+
 func (p *c13prop) Plan(tier string, seed int64) []core.Segment {
 	m := tierScale(tier, 30)
 	var segs []core.Segment
@@ -79,8 +89,8 @@ func (p *c13prop) Gen(kind string, idx int64, seed int64, tier string) core.Case
 		}
 		// a few instances with buffers beyond 64 KiB (large temporary slices
 		// inside the suffix array parsers, several of them at the same time)
-		for g := 0; g < 5; g++ {
-			t := []string{"OSAP", "OSAP", "OSAP", "GSAP", "OSAP"}[g]
+		for g := 0; g < 3; g++ {
+			t := []string{"OSAP", "GSAP", "OSAP"}[g]
 			c := gen.SmallCfg(r, t, gen.Opts{})
 			// every refill adds 10 kB to more than 64 Ki buffered bytes: the
 			// instances rebuild their large temporary arrays again and again,
@@ -91,9 +101,12 @@ func (p *c13prop) Gen(kind string, idx int64, seed int64, tier string) core.Case
 			c.BlockSize = 16384
 			c.MaxMatchLen = 273
 			c.MinMatchLen = 3
-			_, stream := gen.Bytes(r, 100000, c.Hint())
+			// (source text and random bytes: runs of one byte cost the
+			// optimizing parser ten times as much, which only varies the
+			// CPU time of the case from seed to seed)
+			stream := gen.Family(r, []string{"text", "rand16", "rand256"}[g], 100000, c.Hint())
 			ops := []POp{}
-			for i := 0; i < 6; i++ {
+			for i := 0; i < 4; i++ {
 				ops = append(ops, POp{K: "readfrom", A: 1, B: 0}, POp{K: "parse"}, POp{K: "parse"}, POp{K: "parse"}, POp{K: "parse"}, POp{K: "parse"}, POp{K: "parse"}, POp{K: "shrink"})
 			}
 			cc.Conc = append(cc.Conc, PCase{Cfg: c, Stream: stream, Ops: ops})
